@@ -1,5 +1,85 @@
-(* C10 - statements only. *)
-Require Import ZArith List. Require Import IW.Lib.CInt IW.Gen.Facts IW.FS.Bits IW.FS.Fsm.
+(* C10 - the block allocator never hands out space that is already in use.  Statements only.
+   Model: FS/Fsm.v (variant record selects the code as it is / after fixes/fsm-*.diff), bit level FS/Bits.v.
+   How the statements compose: C10_every_history_good says every state reached by a client that releases only what
+   it owns satisfies [Good] (tree = maximal zero runs, cache entry is a tree entry); in a Good state an allocation
+   (C10_alloc_fresh_partial) returns a block-aligned, long-enough region all of whose blocks were free and flips
+   exactly those bits 0->1 (C10_alloc_flips_only_own), hence never a block that was allocated - header, bitmap and
+   live regions have their bits set (C10_alloc_avoids_allocated).
+   _partial: histories in which the bitmap does not grow/move (allocations carry IWFSM_ALLOC_NO_EXTEND, no clear, no
+   trim on close).  The missing part is the invariant across _fsm_init_lw (bitmap relocation: reload + release of the
+   old bitmap area); the model of that path is executable and is compared with the implementation on every run (T2). *)
+Require Import ZArith List Bool. Require Import IW.Lib.CInt IW.Gen.Facts IW.FS.Bits IW.FS.Bits_proofs IW.FS.Fsm IW.FS.Fsm_proofs.
 Import ListNotations. Local Open Scope Z_scope.
-Example C10_placeholder : cmp_key (1, 2) (1, 3) = -1.
-Proof. reflexivity. Qed.
+
+Theorem C10_alloc_fresh_partial : forall s len addr opts ovr, Inv s -> WF s -> len < 2 ^ 62 ->
+  has opts IWFSM_ALLOC_NO_EXTEND = true ->
+  let '(rc, s', a, l) := allocate s len addr opts ovr in
+  (rc <> 0 /\ (s' = s \/ exists off olen, allocated_from s s' off olen)) \/
+  (rc = 0 /\ exists off olen, allocated_from s s' off olen /\ a = off * 2 ^ bpow s /\ l = olen * 2 ^ bpow s /\
+     len <= l /\ (has opts IWFSM_ALLOC_NO_OVERALLOCATE = true -> l = IW_ROUNDUP len (pow2 (bpow s))) /\
+     (has opts IWFSM_ALLOC_PAGE_ALIGNED = true -> a mod aunit s = 0)).
+Proof. exact allocate_noext. Qed.
+Print Assumptions C10_alloc_fresh_partial.
+
+Theorem C10_alloc_avoids_allocated : forall s s' off olen i, allocated_from s s' off olen ->
+  getb (bm s) i = true -> ~ (off <= i < off + olen).
+Proof. exact alloc_avoids_allocated. Qed.
+Print Assumptions C10_alloc_avoids_allocated.
+
+Theorem C10_alloc_flips_only_own : forall s s' off olen i, allocated_from s s' off olen -> 0 <= i < nbits s ->
+  getb (bm s') i = if (off <=? i) && (i <? off + olen) then true else getb (bm s) i.
+Proof. exact alloc_flips_only_own. Qed.
+Print Assumptions C10_alloc_flips_only_own.
+
+Theorem C10_page_aligned_alloc : forall s length_blk mx, Inv s -> WF s -> 0 < length_blk ->
+  let '(rc, s', off, olen) := blk_allocate_aligned s length_blk mx in
+  (rc = IWFS_ERROR_NO_FREE_SPACE /\ s' = s) \/
+  (rc = 0 /\ olen = length_blk /\ allocated_from s s' off olen /\ off mod shr (aunit s) (bpow s) = 0 /\ off <= mx).
+Proof. exact blk_allocate_aligned_spec. Qed.
+Print Assumptions C10_page_aligned_alloc.
+
+Theorem C10_release_exact : forall s addr len, Good s ->
+  live_range s (shr addr (bpow s)) (shr len (bpow s)) ->
+  let '(rc, s') := deallocate s addr len in
+  Good s' /\ same_cfg s s' /\
+  (s' = s \/ (rc = 0 /\ bm s' = set_range (bm s) (shr addr (bpow s)) (shr len (bpow s)) false)).
+Proof. exact deallocate_good. Qed.
+Print Assumptions C10_release_exact.
+
+Theorem C10_reallocate_good : forall s nlen addr olen opts ovr, Good s -> has opts IWFSM_ALLOC_NO_EXTEND = true ->
+  0 <= nlen < 2 ^ 62 -> live_range s (shr addr (bpow s)) (shr olen (bpow s)) ->
+  Good (state_of (reallocate s nlen addr olen opts ovr)) /\ same_cfg s (state_of (reallocate s nlen addr olen opts ovr)).
+Proof. exact reallocate_good. Qed.
+Print Assumptions C10_reallocate_good.
+
+Theorem C10_invalid_release_refused : forall s addr len,
+  negb (Z.land addr (blkmask s) =? 0) = true \/ touches_meta s (shr addr (bpow s)) (shr len (bpow s)) = true ->
+  fst (deallocate s addr len) <> 0 /\ snd (deallocate s addr len) = s.
+Proof. exact deallocate_refuses. Qed.
+Print Assumptions C10_invalid_release_refused.
+
+(* strict mode, model of the code after fixes/fsm-strict-dealloc.diff *)
+Theorem C10_strict_release_refused : forall s a m, fx_strict (vr s) = true -> strict s = true ->
+  0 <= a -> 0 <= m -> a + m <= nbits s -> len_z (bm s) = nbits s ->
+  (exists i, a <= i < a + m /\ getb (bm s) i = false) ->
+  blk_deallocate s a m = (IWFS_ERROR_FSM_SEGMENTATION, s).
+Proof. exact strict_release_refused. Qed.
+Print Assumptions C10_strict_release_refused.
+
+(* the same statement is false of the code as it is: the allocated part of the range is cleared, then the error is returned *)
+Theorem C10_strict_release_refused_refuted : exists s a m, strict s = true /\ 0 <= a /\ 0 <= m /\ a + m <= nbits s /\
+  len_z (bm s) = nbits s /\ (exists i, a <= i < a + m /\ getb (bm s) i = false) /\
+  fst (blk_deallocate s a m) <> 0 /\ bm (snd (blk_deallocate s a m)) <> bm s.
+Proof. exact strict_release_refused_refuted. Qed.
+Print Assumptions C10_strict_release_refused_refuted.
+
+Theorem C10_every_history_good_partial : forall ops s, Good s -> ok_run s ops -> Good (run s ops).
+Proof. exact run_good. Qed.
+Print Assumptions C10_every_history_good_partial.
+
+(* the hypotheses are satisfiable: a new 64-byte-block file, closed and reopened, and a history on it *)
+Example C10_good_state_exists : Good (reopen (fresh v_fixed false) false false).
+Proof. exact fresh_reopened_good. Qed.
+Example C10_history_exists : ok_run (fresh v_fixed false) lfbk_witness /\
+  (let '(rc, _, a, l) := allocate (fresh v_fixed false) 100 0 11 false in (rc, a, l)) = (0, 128, 128).
+Proof. split; [apply lfbk_witness_ok; right; reflexivity|vm_compute; reflexivity]. Qed.
